@@ -2,7 +2,7 @@
 """refresh_seeded.py: re-run each seeded mutant's property check (bin/mutest, scratch worktree) and record the outcome in meta.json."""
 import os, json, glob, subprocess, sys
 bad = 0
-for d in sorted(glob.glob('/verif/seeded/C*-[mnpqrs]*')):
+for d in sorted(glob.glob('/verif/seeded/C*-[mnpqrst]*')):
     pid = os.path.basename(d).split('-')[0]
     r = subprocess.run(['/verif/bin/mutest', pid, d + '/patch.diff'], capture_output=True, text=True, env=dict(os.environ, MUTEST_LINES='8'))
     lines = r.stdout.strip().splitlines()
